@@ -288,6 +288,15 @@ func (s *Session) EmuIP() (uint64, bool) {
 	return emulate.VerifIP(m)
 }
 
+// EmuRegs returns the registers known to the emulator of the current mode if it is an emulate mode.
+func (s *Session) EmuRegs() (map[string][]byte, bool) {
+	m, _ := s.UI.VerifMode()
+	if m == nil {
+		return nil, false
+	}
+	return emulate.VerifRegs(m)
+}
+
 type RenderResult struct {
 	Shown    []int // line indices printed (first number of every printed line), in order
 	Min, Max int
